@@ -420,7 +420,7 @@ func init() {
 	vh.Register(&vh.Check{
 		ID: "C19", Level: "model_checking",
 		Technique:   "exhaustive enumeration of a node-URI override grammar x connection source addresses on the real signed vipnode_connect / vipnode_host, with parse-back oracle (ethnode.ParseNodeURI, net.SplitHostPort) and a follow-up vipnode_peer",
-		Rule:        "override ∈ {absent} ∪ 3 schemes x 6 user parts (own id, other id, empty, with password, none) x 6 hosts (IPv4, DNS, IPv6 literal, [::], 0.0.0.0, empty) x 4 ports x 3 tails, x 5 source addresses (IPv4, IPv6, IPv6 loopback, empty, service without RemoteAddr), on both endpoints (~13k registrations); accepted => stored id == authenticated id, host:port splits back to the supplied/default address, clients are handed the same URI; other id or undeterminable host => refused with nothing stored or registered; well-formed own-id overrides => accepted",
+		Rule:        "override ∈ {absent} ∪ 3 schemes x 6 user parts (own id, other id, empty, with password, none) x 6 hosts (IPv4, DNS, IPv6 literal, [::], 0.0.0.0, empty) x 4 ports x 3 tails, x 5 source addresses (IPv4, IPv6, IPv6 loopback, empty, service without RemoteAddr), on both endpoints (~13k registrations); accepted => stored id == authenticated id, host:port splits back to the supplied/default address, clients are handed the same URI; other id or undeterminable host => refused with nothing stored or registered; well-formed own-id overrides => accepted; overrides that are a node id alone (with and without scheme / port)",
 		Assumptions: []string{"non-enode schemes and unparsable overrides may be refused or accepted; when accepted the stored address is judged like any other"},
 		Units: func(tier string) []vh.Unit {
 			var us []vh.Unit
